@@ -144,6 +144,11 @@ c.ensure('resolves_back', lambda x: z3.And(
     dsuffix(x.result.e, x.a.complete_selector.e),
     sym.forall([s_], matches(x.self_old, x.result.e, s_) ==
                (s_ == x.a.complete_selector.e))))
+c.ensure('no_shorter_suffix_resolves_back', lambda x: sym.forall(
+    [t_], z3.Implies(
+        z3.And(dsuffix(t_, x.result.e), z3.Not(dsuffix(x.result.e, t_))),
+        z3.Exists([s_], z3.Xor(matches(x.self_old, t_, s_), s_ == x.a.complete_selector.e))),
+    patterns=[dsuffix(t_, x.result.e)]))
 c.raises_only_listed = True
 register(c)
 
